@@ -335,7 +335,13 @@ def _d3(chk, fb):
         cfg = f.cfg
         sl = [n for n in f.calls() if n["callee"]["name"] == "sliceWith"]
         er = [n for n in f.calls() if n["callee"]["name"] == "erase"]
+        # ... or a helper of the class that erases from ranges_ (delete + erase extracted)
+        er += [n for n in f.calls() if n["callee"].get("inrepo") and ("obj" not in n or strip(f.obj(n))["k"] == "CXXThisExpr")
+               and any(t.body is not None and any(y["callee"]["name"] == "erase" and "obj" in y and render(t.obj(y)).replace("this.", "") == "ranges_" for y in t.calls()) for t in fb.targets(n))]
         ok = bool(sl) and bool(er)
+        if not ok:
+            chk.unknown("D3", f.key, "slice-then-drop-empties", f.loc(), "slicing or removal not in a recognised form (sliceWith: %d, erase sites: %d)" % (len(sl), len(er)))
+            continue
         if ok:
             # after slicing, the isEmpty-true edge must lead to the erase
             for e in er:
